@@ -74,6 +74,10 @@ def dataset_specs(tier: str, purpose: str) -> list[dict]:
         {'family': 'cf1d', 'ny': 3, 'nx': 4, 'bounds': 'var', 'explicit_names': True},
         {'family': 'cf2d', 'ny': 3, 'nx': 3, 'geometry': 'skew', 'explicit_names': True},
     ]
+    specs += [
+        {'family': 'shoc_standard', 'nj': 3, 'ni': 3, 'dry': 'corner', 'big_endian': True},
+        {'family': 'ugrid', 'mesh': 'M4', 'supplied': ['edge_node', 'face_face'], 'fill': 'fillattr', 'start_index': 1, 'big_endian': True},
+    ]
     # no records yet (a grid or template file with an unlimited time axis), and a single record
     specs += [
         {'family': 'cf1d', 'ny': 3, 'nx': 3, 'nt': 0, 'ints': True},
@@ -82,7 +86,9 @@ def dataset_specs(tier: str, purpose: str) -> list[dict]:
         {'family': 'ugrid', 'mesh': 'M4', 'nt': 0},
         {'family': 'shoc_simple', 'ny': 3, 'nx': 3, 'nt': 1, 'nk': 1},
     ]
-    for s in builders.history_specs(tier):
+    # (quick: three histories on three families; thorough: every history of the quick list on every family -- the
+    # length-2 product is explored by the checks whose cases are cheaper than a clip)
+    for s in builders.history_specs('quick'):
         if s.get('explicit_names'):
             continue    # a clipped dataset is a new dataset, detected afresh: not the hand-bound grid any more
         if not quick or (s['history'] in (['warm'], ['pickle'], ['chunk']) and s['family'] in ('cf2d', 'shoc_standard', 'ugrid')):
